@@ -157,3 +157,22 @@ def xi_split_harnesses():
                                  solver="cadical" if isf else "default", include_env=("log_stub", "memfile"), timeout=300,
                                  functions=[kernel], bounds="4 items (symbolic), any predictor state, %s" % ("any split point 0..4" if kfix is None else "split point %d" % kfix)))
     return out
+
+
+def ms_stage_harnesses():
+    """MS ADPCM write staging (harness/L3/ms_stage.c)."""
+    out = []
+    for api, tname in (("s", "short"), ("i", "int"), ("f", "float"), ("d", "double")):
+        for ch in (1, 2):
+            isf = api in ("f", "d")
+            d = {"API_" + api: 1, "CH": ch, "LM": 6, "LIBSNDFILE_VERIF_BUFFER_LEN": 8, "MF_CAP": 16, "MF_MAXIO": 16, "SNP_MAX": 40, "PSF_MEMSET_MAX": 64, "MEMCPY_MAX": 20}
+            d["SC_FIXED"] = 5
+            d["LEN_FIXED"] = 6
+            if isf: d["CONCRETE_VALUES"] = 1
+            out.append(H("ms.stage.write.%s.ch%d" % (tname, ch), "L3/ms_stage.c", link=["common"], stubs=["psf_log_printf", "psf_memset"], defines=d, unwind=9,
+                         unwindset=["psf_fwrite.0:17", "memcpy.0:21", "memset.0:21", "snprintf.0:41", "snprintf.1:41"], checks="mem", fsa=160,
+                         solver="cadical" if isf else "default", include_env=("log_stub", "memfile", "memset_model", "snprintf_model", "memcpy_model"), timeout=300,
+                         tiers=("quick", "thorough") if ch == 2 else ("thorough",),
+                         functions=["msadpcm_write_" + api, "msadpcm_write_block"],
+                         bounds="%d channel(s), one call of 6 items from an exact-size heap block (symbolic values; position-distinct constants for float/double), 5 frames already staged in a 64-frame block, staging buffer 4 shorts (hook)" % ch))
+    return out
